@@ -51,7 +51,7 @@ func (c06) New() interface{} { return &C06Script{} }
 func (c06) Info() core.Info {
 	return core.Info{
 		Runs: map[string]int{"quick": 600000, "thorough": 40000000},
-		Rule: "Each run builds one abstract PMT (0..40 streams, decodable and opaque descriptors, section_length <= 1021), serialises it with the reference serialiser, prefixes pointer_field 0..182 + filler and 0..2 complete foreign sections, appends 0xFF stuffing, cuts the payload into packets at scripted sizes with a scripted stuffing style per packet (AF stuffing of length 0 / >=1, AF with PCR or flags, trailing 0xFF), interleaves them by a scripted multiplexer with packets of other PIDs (null, PES, a different PMT on another PID) and reads the stream with ReadPMT over a SimReader with scripted Read outcomes and optional truncation; NewPMT on the concatenated payload, the completion predicate on EVERY prefix of the payload (crash points), ExtractCRC and the PSI header accessors are checked in the same run; plus a complete sweep for 3 fixed PMTs of every first-packet size 1..184 x pointer_field 0..20 x 3 stuffing styles. Non-trivial = at least one reach probe fired.",
+		Rule: "Each run builds one abstract PMT (0..40 streams, decodable and opaque descriptors, section_length <= 1021), serialises it with the reference serialiser, prefixes pointer_field 0..182 + filler and 0..2 complete foreign sections, appends 0xFF stuffing, cuts the payload into packets at scripted sizes with a scripted stuffing style per packet (AF stuffing of length 0 / >=1, AF with PCR or flags, trailing 0xFF), interleaves them by a scripted multiplexer with packets of other PIDs (null, PES, a different PMT on another PID) and reads the stream with ReadPMT over a SimReader with scripted Read outcomes and optional truncation; NewPMT on the concatenated payload, the completion predicate on EVERY prefix of the payload (crash points), ExtractCRC and the PSI header accessors are checked in the same run; in a third of the fault-free runs a PAT, another program's PMT and this PMT are read one after the other from ONE reader (both orders), each table present once; plus a complete sweep for 3 fixed PMTs of every first-packet size 1..184 x pointer_field 0..20 x 3 stuffing styles. Non-trivial = at least one reach probe fired.",
 		Real: []string{"psi.ReadPMT", "psi.NewPMT", "psi.PmtAccumulatorDoneFunc", "packet.Accumulator", "psi.ExtractCRC", "psi.PointerField/TableID/SectionSyntaxIndicator/PrivateIndicator/SectionLength", "psi.TableHeaderFromBytes/TableHeader.Data", "psi.NewPointerField", "PmtElementaryStream/PmtDescriptor getters and decoders", "io.ReadFull (stdlib)"},
 		Stub: []string{"PMT source + reference serialiser/CRC", "packetiser", "multiplexer (scripted picks)", "SimReader"},
 		Assumptions: []string{
@@ -60,7 +60,7 @@ func (c06) Info() core.Info {
 			"descriptor bodies are compared through the decoders for the decodable kinds; opaque descriptors by tag only (the API exposes no raw body)",
 			"after an injected reader error ReadPMT may return that error or the exact answer; truncation before the last needed packet must give ErrPMTNotFound",
 		},
-		RequiredProbes: []string{"first_packet_payload_le3", "split_inside_header", "split_inside_descriptor", "split_before_crc", "pointer_gt0", "foreign_section_before", "interleaved", "af_len0_stuffing", "multi_packet_ge3", "section_len_ge_1000", "other_pmt_on_other_pid", "trailing_stuffing", "truncated_before_end", "zero_streams", "es_info_length_ge_256", "program_info_length_ge_256", "prelude_unit_on_pmt_pid", "pointer_255", "held_pmt_rechecked", "more_than_255_descriptors", "entry_starts_with_ff_ff_ff", "pmt_after_70000_packets"},
+		RequiredProbes: []string{"first_packet_payload_le3", "split_inside_header", "split_inside_descriptor", "split_before_crc", "pointer_gt0", "foreign_section_before", "interleaved", "af_len0_stuffing", "multi_packet_ge3", "section_len_ge_1000", "other_pmt_on_other_pid", "trailing_stuffing", "truncated_before_end", "zero_streams", "es_info_length_ge_256", "program_info_length_ge_256", "prelude_unit_on_pmt_pid", "pointer_255", "held_pmt_rechecked", "more_than_255_descriptors", "entry_starts_with_ff_ff_ff", "pmt_after_70000_packets", "pat_and_two_pmts_from_one_reader"},
 	}
 }
 
@@ -591,6 +591,77 @@ func (c06) Exec(script interface{}, c *core.Ctx) {
 			}
 			return
 		}
+	}
+	// One reader, several tables (the way cli/parsefile.go and any multi-program caller reads a
+	// stream): ReadPAT, ReadPMT of another program, then ReadPMT of this one, all on the same
+	// reader - and the other order. The packets of this PMT follow immediately, once; a call
+	// that takes more from the caller's reader than the packets of the table it returns loses them.
+	if pid := s.Wire.Carrier.PID; s.Wire.Salt%3 == 1 && s.Wire.CutAt == 0 && !parties.HasErrOps(s.Wire.Reads) && pid > 0x1f && pid < 0x1FFF && len(s.PMT.Streams) > 0 {
+		pid2 := 0x0F00
+		if pid == pid2 {
+			pid2 = 0x0F01
+		}
+		pat := ref.PATSpec{TSID: 1, Version: 3, Reserved: 7, Entries: []ref.PATEntry{{Program: 77, PID: pid2}, {Program: s.PMT.Program | 1<<15, PID: pid}}}
+		var patPkt parties.Pkt
+		patPkt[0], patPkt[1], patPkt[2], patPkt[3] = 0x47, 0x40, 0x00, 0x10
+		pl := ref.Payload(0, [][]byte{pat.Section()}, 0)
+		copy(patPkt[4:], pl)
+		for k := 4 + len(pl); k < 188; k++ {
+			patPkt[k] = 0xFF
+		}
+		var sizes []int
+		if s.Wire.Salt%2 == 0 {
+			sizes = []int{20, 30}
+		}
+		dp := parties.Flatten(parties.Packetise(ref.Payload(s.Wire.Salt%5, [][]byte{decoy.Section()}, 0), parties.Carrier{PID: pid2, Sizes: sizes, Styles: []string{"ff", "af", "ff"}}))
+		for _, order := range []string{"other_first", "other_last"} {
+			var st []byte
+			st = append(st, patPkt[:]...)
+			if order == "other_first" {
+				st = append(append(st, dp...), w.stream...)
+			} else {
+				st = append(append(st, w.stream...), dp...)
+			}
+			sr2 := parties.NewSimReader(st, s.Wire.Reads, c)
+			sr2.DefaultKind = s.Wire.Default
+			var gotPAT psi.PAT
+			var e error
+			if !c.Call("psi.ReadPAT(same reader)", func() { gotPAT, e = psi.ReadPAT(sr2) }) {
+				return
+			}
+			if e != nil || gotPAT == nil || gotPAT.ProgramMap()[77] != pid2 {
+				c.Fail("read_stream", "stream:same_reader:pat", e, "the PAT in front")
+				return
+			}
+			readOne := func(p int, want ref.PMTSpec, what string) bool {
+				var got psi.PMT
+				var e error
+				if !c.Call("psi.ReadPMT(same reader, "+what+")", func() { got, e = psi.ReadPMT(sr2, p) }) {
+					return false
+				}
+				if e != nil {
+					c.Fail("read_stream", "stream:same_reader:"+order+":"+what+"_not_found", e, "the PMT that follows on the same reader")
+					return false
+				}
+				if d := comparePMT(c, got, want); d != "" {
+					if d != "panic" {
+						c.Fail("read_stream", "stream:same_reader:"+order+":"+what+":"+clauseOf(d), d, "the abstract PMT")
+					}
+					return false
+				}
+				return true
+			}
+			if order == "other_first" {
+				if !readOne(pid2, decoy, "other") || !readOne(pid, s.PMT, "this") {
+					return
+				}
+			} else {
+				if !readOne(pid, s.PMT, "this") || !readOne(pid2, decoy, "other") {
+					return
+				}
+			}
+		}
+		c.Probe("pat_and_two_pmts_from_one_reader")
 	}
 	if s.Wire.Salt == 999 && len(w.pkts) > 0 {
 		// the same PMT packets behind 70 000 generated packets of another PID
